@@ -161,10 +161,13 @@ Definition plane_fraunhofer (B : Z) (g : Z -> Z -> S) (ar ac : Qc) (U V : Qc) : 
   sumZ (2 * B + 1) (fun x => sumZ (2 * B + 1) (fun y =>
     (g (x - B)%Z (y - B)%Z * ke (ar * zq (x - B) * U + ac * zq (y - B) * V)%Qc)%K)).
 
+(* Wavefront.insert(out, weight): every reduced field adds weight * |field|^2 into the caller's array *)
+Definition winsert (w : wavefront) (out : arr S) (weight : S) : result (arr S) := accumulate (wdata w) out weight.
+
 (* Field.shift for a field without tilt elements *)
 Definition no_shift (f : field S) : Qc * Qc := (0%Qc, 0%Qc).
 End Propagate.
 
 Arguments mkWf {S}. Arguments wwl {S}. Arguments wps {S}. Arguments wfocal {S}. Arguments wshape {S}.
 Arguments wptype {S}. Arguments wdata {S}. Arguments prop_field {S}. Arguments prop_fields {S}.
-Arguments propagate_dft {S}. Arguments plane_fraunhofer {S}. Arguments wfield {S}. Arguments wintensity {S}. Arguments no_shift {S}.
+Arguments propagate_dft {S}. Arguments plane_fraunhofer {S}. Arguments wfield {S}. Arguments wintensity {S}. Arguments winsert {S}. Arguments no_shift {S}.
